@@ -899,6 +899,34 @@ func ruleStRecovery(c *Ctx, r *Reporter) {
 			if GuardedBy(ins.Block(), g) {
 				okMax = true
 				pos = c.InsPos(ins)
+				// every applied entry is counted: the comparison is evaluated on every path to the call that applies the entry
+				var cmpBlocks []*ssa.BasicBlock
+				for _, b := range body.Blocks {
+					if len(b.Instrs) == 0 {
+						continue
+					}
+					if iff, ok := b.Instrs[len(b.Instrs)-1].(*ssa.If); ok {
+						if t, f := withNot(g)(iff.Cond); t || f {
+							cmpBlocks = append(cmpBlocks, b)
+						}
+					}
+				}
+				AllInstrs(body, false, func(_ *ssa.Function, x ssa.Instruction) {
+					call, ok := x.(*ssa.Call)
+					if !ok || call.Call.StaticCallee() == nil || call.Call.StaticCallee().Name() != "ProcessWALEntry" {
+						return
+					}
+					hit, path := ReachE(body, nil, func(y ssa.Instruction) bool { return y == x }, func(y ssa.Instruction) bool {
+						for _, cb := range cmpBlocks {
+							if y.Block() == cb {
+								return true
+							}
+						}
+						return false
+					}, nil)
+					r.Check(hit == nil, "memtable.RecoverFromWAL:every-applied-entry-counted", c.InsPos(x), "the seq > max test is evaluated on every path to the application of an entry",
+						"an entry can be applied to a recovered memtable without its sequence number being compared with the running maximum (the update sits on one arm of another decision): when that entry is the last of the log, recovery restores a counter that is too low and the first write after the restart reuses an acknowledged sequence number", c.PathString(path)...)
+				})
 			}
 		})
 	}
